@@ -5,6 +5,7 @@ from .c06 import PROBE
 
 class C07(framework.PropertyCheck):
     pid = 'C07'
+    theorem_coverage = True
     quick_cases = 1500
     thorough_cases = 30000
     rule = ('core-calculus programs whose names are disjoint from signal names and whose defines occur in straight-line positions: random '
